@@ -179,6 +179,12 @@ Section Text.
     rewrite !orb_true_iff, !andb_true_iff, !N.leb_le in E.
     rewrite !orb_true_iff, !andb_true_iff, !N.leb_le, !N.eqb_eq in Hx. lia.
   Qed.
+  Lemma lowercase_58 : forall c, lowercase c = 58 -> c = 58.
+  Proof.
+    intros c H. unfold lowercase in H. destruct (c =? 215); [exact H|].
+    destruct (in_range 65 90 c || in_range 192 214 c || in_range 216 222 c) eqn:E; [|exact H].
+    exfalso. unfold in_range in *. rewrite !orb_true_iff, !andb_true_iff, !N.leb_le in E. lia.
+  Qed.
   Lemma lowercase_35 : forall c, lowercase c = 35 -> c = 35.
   Proof.
     intros c H. unfold lowercase in H. destruct (c =? 215); [exact H|].
@@ -308,11 +314,11 @@ Section Text.
   Lemma of_result_ok : forall A (r : A + terr) st x st', of_result r st = (Ok x, st') -> r = inl x /\ st' = st.
   Proof. intros A [a|e] st x st' H; unfold of_result, ret, throw in H; [injection H as <- <-; auto|discriminate]. Qed.
 
-  Lemma abs_based_text : forall p0 pai initial st0 st k v st', ini_run initial st0 st ->
-    get_char d st = GChar 35 ->
-    abs_based d F p0 pai initial st = (Ok (k, v), st') -> exists l, run l st0 st' /\ lex_ok k v l = true.
+  Lemma abs_based_text : forall dl p0 pai initial st0 st k v st', ini_run initial st0 st ->
+    get_char d st = GChar dl ->
+    abs_based d F dl p0 pai initial st = (Ok (k, v), st') -> exists l, run l st0 st' /\ lex_ok k v l = true.
   Proof.
-    intros p0 pai initial st0 st k v st' Hi G H. unfold abs_based in H.
+    intros dl p0 pai initial st0 st k v st' Hi G H. unfold abs_based in H.
     bok H x st1 OR. destruct x as [base bt]. destruct (of_result_ok _ _ _ _ _ OR) as [-> ->].
     specialize (Hi base bt eq_refl).
     bok H u st2 S. pose proof (skip_ok_at _ _ _ _ G S). subst st2.
@@ -320,7 +326,7 @@ Section Text.
     bok H op st4 P1. pose proof (peek_ok_nomove _ _ _ P1). subst st4.
     bok H fres st4 FR.
     bok H op2 st5 P2. pose proof (peek_ok_nomove _ _ _ P2). subst st5.
-    destruct (opt_is op2 35) eqn:E2; [|bok H e st6 GP; discriminate].
+    destruct (opt_is op2 dl) eqn:E2; [|bok H e st6 GP; discriminate].
     destruct op2 as [c2|]; [|discriminate]. cbn [opt_is] in E2. apply N.eqb_eq in E2. subst c2.
     destruct (peek_some_inv _ _ _ _ P2) as [_ [G2 _]].
     bok H u2 st5 S2. pose proof (skip_ok_at _ _ _ _ G2 S2). subst st5.
@@ -328,7 +334,7 @@ Section Text.
     apply try_ok_inl in T1. pose proof (parse_integer_text _ _ _ _ _ _ T1) as Rit.
     bok H ftxt st6 FT.
     (* the fraction *)
-    assert (Hfr : exists lf, run lf st3 st4 /\ st6 = skip_char st4 35 /\
+    assert (Hfr : exists lf, run lf st3 st4 /\ st6 = skip_char st4 dl /\
                    lf = match ftxt with Some ft => [46] ++ ft | None => [] end).
     { destruct (opt_is op 46) eqn:E1.
       - destruct op as [c1|]; [|discriminate]. cbn [opt_is] in E1. apply N.eqb_eq in E1. subst c1.
@@ -347,7 +353,7 @@ Section Text.
     bok H op3 st7 P3. pose proof (peek_ok_nomove _ _ _ P3). subst st7.
     bok H oexp st7 OE.
     (* the exponent *)
-    assert (Hex : exists le, run le (skip_char st4 35) st7 /\
+    assert (Hex : exists le, run le (skip_char st4 dl) st7 /\
                    le = match oexp with Some (c, (_, _, et)) => [c] ++ et | None => [] end).
     { destruct op3 as [c3|].
       - destruct (is_e c3).
@@ -359,14 +365,14 @@ Section Text.
         + unfold ret in OE. injection OE as <- <-. exists []. split; [constructor|reflexivity].
       - unfold ret in OE. injection OE as <- <-. exists []. split; [constructor|reflexivity]. }
     destruct Hex as [le [Rle Ele]].
-    set (txt0 := bt ++ [35] ++ it ++ match ftxt with Some ft => [46] ++ ft | None => [] end ++ [35]) in *.
+    set (txt0 := bt ++ [dl] ++ it ++ match ftxt with Some ft => [46] ++ ft | None => [] end ++ [dl]) in *.
     set (txt1 := match oexp with Some (c, (_, _, et)) => txt0 ++ [c] ++ et | None => txt0 end) in *.
     assert (Rall : run txt1 st0 st7).
-    { assert (R0 : run txt0 st0 (skip_char st4 35)).
-      { assert (R0' : run (bt ++ 35 :: it ++ lf ++ [35]) st0 (skip_char st4 35)).
+    { assert (R0 : run txt0 st0 (skip_char st4 dl)).
+      { assert (R0' : run (bt ++ dl :: it ++ lf ++ [dl]) st0 (skip_char st4 dl)).
         { eapply run_app; [exact Hi|]. econstructor; [exact G|].
           eapply run_app; [exact Rit|]. eapply run_app; [exact Rlf|]. apply run_one. exact G2. }
-        replace txt0 with (bt ++ 35 :: it ++ lf ++ [35]); [exact R0'|].
+        replace txt0 with (bt ++ dl :: it ++ lf ++ [dl]); [exact R0'|].
         unfold txt0. rewrite Elf. reflexivity. }
       unfold txt1. destruct oexp as [[c [[neg ev] et]]|].
       - eapply run_app; [exact R0|]. rewrite Ele in Rle. exact Rle.
@@ -459,8 +465,15 @@ Section Text.
     destruct (lowercase c0 =? 101); [eapply abs_int_exp_text; eassumption|].
     destruct (lowercase c0 =? 35) eqn:E35.
     - apply N.eqb_eq in E35. apply lowercase_35 in E35. subst c0. eapply abs_based_text; eassumption.
-    - destruct (is_bs_letter (lowercase c0)); [|eapply abs_plain_text; eassumption].
-      eapply abs_bit_string_text; eassumption.
+    - destruct (lowercase c0 =? 58) eqn:E58.
+      + apply N.eqb_eq in E58. apply lowercase_58 in E58. subst c0.
+        bok H b st2 CS.
+        assert (st2 = st1).
+        { unfold colon_starts_based_literal in CS.
+          destruct (colon_lookahead d st1) as [[[[n|]|e]|e|a] st3]; try discriminate; injection CS as _ <-; reflexivity. }
+        subst st2. destruct b; [eapply abs_based_text; eassumption|eapply abs_plain_text; eassumption].
+      + destruct (is_bs_letter (lowercase c0)); [|eapply abs_plain_text; eassumption].
+        eapply abs_bit_string_text; eassumption.
   Qed.
 
   (* ---------- parse_token ---------- *)
